@@ -66,6 +66,9 @@ pub fn avoid_flags() -> Avoid {
                 "instr_in_param_default" => a.instr_in_param_default = true,
                 "if_direct" => a.if_direct = true,
                 "multi_directive" => a.multi_directive = true,
+                "regex_literal_operand" => a.regex_literal_operand = true,
+                "spread_noniterable_literal" => a.spread_noniterable_literal = true,
+                "missing_proto_method" => a.missing_proto_method = true,
                 "plain_sum_operand" => a.plain_sum_operand = true,
                 "opt_call_paren_callee" => a.opt_call_paren_callee = true,
                 _ => {}
